@@ -109,12 +109,13 @@ def effects(fn):
                 continue
             if isinstance(s, (ast.For, ast.AsyncFor)):
                 block(s.body, here)
-                block(s.orelse, here)
+                # the else clause of a loop runs only when the loop was not left by `break`: an implicit condition
+                block(s.orelse, here + ["<loop not left by break>"])
                 continue
             if isinstance(s, ast.While):
                 wc = [] if (isinstance(s.test, ast.Constant) and s.test.value) else _conj_texts(s.test)
                 block(s.body, here + wc)
-                block(s.orelse, here)
+                block(s.orelse, here + ["<loop not left by break>"])
                 continue
             if isinstance(s, (ast.With, ast.AsyncWith)):
                 added += block(s.body, here)
